@@ -107,6 +107,11 @@ def install_all(E, quiet=True, hashes=True, secp=True):
     if hashes: install_hash_stubs(E)
     if secp: install_secp_stubs(E)
     install_rbtree(E)
+    def memory_cleanse(E, st, fr, I, A):
+        if is_sym(A[1]) or is_sym(A[0]): raise Unsupported('symbolic memory_cleanse')
+        for i in range(A[1]): E.store(st, A[0] + i, 1, 0)
+        return None
+    E.stubs['_Z14memory_cleansePvm'] = memory_cleanse
 
 # ------------------------------------------------------------------ signature-check oracle of shims/sess.cpp (OracleChecker)
 def install_oracle(E):
